@@ -304,6 +304,22 @@ def observe_div(fx, np, props, tx, ty, cxs, cys, method='raw', rnd='trunc', rout
             res['c' + name] = [wint(c) for c in common.codes_of(Z)]
             res['t' + name] = fmt_of(Z)
             res['f' + name] = [fl['o'], fl['u'], fl['i']]
+        # the same quotient and remainder written into an existing object through out= (NumPy ufunc call / module function):
+        # a format with room for both (small world only: the out word stays within the stated 53 bits)
+        res.update(hasout=False, oq=[], om=[], ot={'s': True, 'w': 1, 'f': 0}, oflags=[False] * 6)
+        if max(tx[1], ty[1]) <= 6 and not hist and route in ('numpy', 'function') and -4 <= min(tx[2], ty[2]) and max(tx[2], ty[2]) <= 10:
+            import fxpmath
+            fo_ = max(tx[2], ty[2], 0) + 3
+            shp = np.shape(np.asarray(X.val))
+            O1 = fx.Fxp(np.zeros(shp) if shp else None, True, 48, fo_)
+            O2 = fx.Fxp(np.zeros(shp) if shp else None, True, 48, fo_)
+            if route == 'numpy':
+                np.floor_divide(X, Y, out=O1); np.mod(X, Y, out=O2)
+            else:
+                fxpmath.floordiv(X, Y, out=O1, method=method); fxpmath.mod(X, Y, out=O2, method=method)
+            f1, f2 = common.flags_of(O1), common.flags_of(O2)
+            res.update(hasout=True, oq=[wint(c) for c in common.codes_of(O1)], om=[wint(c) for c in common.codes_of(O2)], ot=fmt_of(O1),
+                       oflags=[f1['o'], f1['u'], f1['i'], f2['o'], f2['u'], f2['i']])
         n = len(res['ct'])
         return dict(base, cx=[wint(c) for c in (cxs[:1] if scalar else cxs)], cy=[wint(c) for c in (cys[:1] if scalar else cys)],
                     v=[0] * n, **res)
